@@ -62,6 +62,8 @@ class Enc:
         if isinstance(x, (int, np.integer)): return "(VInt %s)" % coq_z(int(x))
         if isinstance(x, (float, np.floating)): return self.num(x)
         if isinstance(x, str): return "(VStr %s)" % q(x)
+        if type(x).__module__.startswith("astropy") and hasattr(x, "unit") and hasattr(x, "value"):     # a Quantity (an ndarray subclass)
+            return "(VObj \"<Quantity>\" [(\"value\", %s)])" % self.val(np.asarray(x.value), depth + 1)
         if isinstance(x, np.ndarray):
             if x.ndim == 0: return self.val(x.item(), depth + 1)
             if x.ndim == 1: return "(VArr [%s])" % "; ".join(self.val(v, depth + 1) for v in x)
@@ -70,11 +72,9 @@ class Enc:
         if isinstance(x, list): return "(VList [%s])" % "; ".join(self.val(v, depth + 1) for v in x)
         if isinstance(x, tuple): return "(VTuple [%s])" % "; ".join(self.val(v, depth + 1) for v in x)
         if isinstance(x, dict): return "(VDict [%s])" % "; ".join("(%s, %s)" % (self.val(k, depth + 1), self.val(v, depth + 1)) for k, v in x.items())
-        if isinstance(x, Proxy):
+        if getattr(type(x), "_is_proxy", False):
             return "(VObj %s [])" % q("<proxy:%s>" % x._px_name)
         t = type(x)
-        if hasattr(x, "unit") and hasattr(x, "value") and t.__module__.startswith("astropy"):
-            return "(VObj \"<Quantity>\" [(\"value\", %s)])" % self.val(x.value, depth + 1)
         if t.__module__.startswith("hierarc") and hasattr(x, "__dict__"):
             self.classes[t.__name__] = t
             return "(VObj %s [%s])" % (q(t.__name__), "; ".join("(%s, %s)" % (q(k), self.val(v, depth + 1)) for k, v in vars(x).items()))
@@ -88,6 +88,7 @@ CONSTS = {"const.c": 299792458.0}
 class Proxy(object):
     """stands for an external object (astropy cosmology, scipy interpolator, KDE, ...): every method call is forwarded and recorded;
     on the Coq side the object is opaque and each recorded method is a replay oracle"""
+    _is_proxy = True
     def __init__(self, obj, name, log):
         object.__setattr__(self, "_px_obj", obj); object.__setattr__(self, "_px_name", name); object.__setattr__(self, "_px_log", log)
     def __getattr__(self, a):
@@ -95,7 +96,12 @@ class Proxy(object):
         if not callable(target):
             return target
         def call(*args, **kw):
-            r = target(*args, **kw)
+            EXTERNAL[0] += 1
+            try:
+                r = target(*args, **kw)
+            finally:
+                EXTERNAL[0] -= 1
+            if EXTERNAL[0] > 0: return r
             self._px_log.append(("%s.%s" % (self._px_name, a), list(args) + list(kw.values()), r, "<proxy:%s>" % self._px_name, a))
             return r
         return call
@@ -116,7 +122,12 @@ class FunPatch:
             self.saved.append((owner, attr, orig))
             f0 = orig.__func__ if isinstance(orig, staticmethod) else orig
             def mwrap(self_, *args, __orig=f0, __tag="%s.%s" % (cname, attr), __c=cname, __a=attr, __static=isinstance(orig, staticmethod), **kw):
-                r = __orig(*args, **kw) if __static else __orig(self_, *args, **kw)
+                EXTERNAL[0] += 1
+                try:
+                    r = __orig(*args, **kw) if __static else __orig(self_, *args, **kw)
+                finally:
+                    EXTERNAL[0] -= 1
+                if EXTERNAL[0] > 0: return r      # nested inside another replayed call: invisible to PySem
                 self.log.append((__tag, list(args) + list(kw.values()), r, __c, __a))
                 return r
             setattr(owner, attr, mwrap)
@@ -124,9 +135,13 @@ class FunPatch:
             orig = getattr(owner, attr)
             self.saved.append((owner, attr, orig))
             def wrap(*args, __orig=orig, __tag=tag, **kw):
-                r = __orig(*args, **kw)
+                EXTERNAL[0] += 1
+                try:
+                    r = __orig(*args, **kw)
+                finally:
+                    EXTERNAL[0] -= 1
                 fr = sys._getframe(1)
-                if "hierarc" in fr.f_code.co_filename:
+                if EXTERNAL[0] == 0 and "hierarc" in fr.f_code.co_filename:
                     self.log.append((__tag, list(args) + list(kw.values()), r, None, None))
                 return r
             setattr(owner, attr, wrap)
@@ -199,12 +214,17 @@ def build_fenv(items, enc_classes, extra_globals=()):
     return "[%s]" % ";\n   ".join(mt), "[%s]" % ";\n   ".join(gt)
 
 
+EXTERNAL = [0]      # > 0 while a replayed (external) call is executing: its random draws are not PySem's
+
+
 class NormalPatch:
     def __init__(self, zs):
         self.zs = list(zs); self.k = 0
     def __enter__(self):
         self.orig = np.random.normal
         def normal(loc=0.0, scale=1.0, size=None):
+            if EXTERNAL[0] > 0:
+                return self.orig(loc, scale, size)
             if size is not None and size != 1: raise RuntimeError("corr_pysem: sized normal draw not modelled")
             if self.k >= len(self.zs): raise RuntimeError("corr_pysem: variate stream exhausted")
             z = self.zs[self.k]; self.k += 1
@@ -314,6 +334,7 @@ def main():
     a = ap.parse_args()
     t0 = time.time()
     items = load_spec(a.builddir)
+    sys.modules.setdefault("corr_pysem", sys.modules["__main__"])     # case modules import Proxy from here: one module identity
     mod = importlib.import_module("pysem_cases." + a.prop)
     rng = np.random.RandomState(1000 + a.seed)
     cases = list(mod.cases(rng, a.tier))
